@@ -48,6 +48,17 @@ func (e *enc) protectedAlloc(a *ssa.Alloc) bool {
 			case *ssa.IndexAddr:
 				chk(u, depth+1)
 			case *ssa.Call, *ssa.Defer, *ssa.DebugRef:
+			case *ssa.Slice:
+				// a slice of a local array is fine when it is only passed straight to calls
+				if srefs := u.Referrers(); srefs != nil {
+					for _, sr := range *srefs {
+						switch sr.(type) {
+						case *ssa.Call, *ssa.Defer, *ssa.DebugRef:
+						default:
+							ok = false
+						}
+					}
+				}
 			case *ssa.Go:
 				ok = false
 			case *ssa.MakeClosure:
@@ -278,16 +289,24 @@ func (e *enc) call(st *State, c *ssa.CallCommon, ins ssa.Instruction, pos token.
 	// results
 	sig := c.Signature()
 	var results []string
+	pureTerms := e.pureCallTerms(st, c, fn, args)
 	for j := 0; j < sig.Results().Len(); j++ {
 		rt := sig.Results().At(j).Type()
 		n := e.fresh(fmt.Sprintf("r_%s_%d", sanitize(site), j), sortOf(rt))
 		e.assumeAll(e.facts(n, rt, true))
+		if pureTerms != nil {
+			// deterministic, side-effect free callee: its result is a function of arguments (and heap)
+			e.assert(eq(n, pureTerms[j]))
+		}
 		results = append(results, n)
 	}
 	if contract != nil {
 		cenv := e.calleeEnv(st, pre, fn, contract, c, mc, args, results)
 		for _, en := range contract.ensures {
 			e.assume(e.evalBool(en.expr, cenv, "postcondition of "+short))
+		}
+		for _, en := range contract.postAssumed {
+			e.assume(e.evalBool(en.expr, cenv, "assumed postcondition of "+short))
 		}
 	}
 	if e.c != nil {
@@ -312,6 +331,84 @@ func (e *enc) call(st *State, c *ssa.CallCommon, ins ssa.Instruction, pos token.
 	return results
 }
 
+// pureCallTerms: for a deterministic, effect-free datamon callee (or interface method whose datamon
+// implementations all are), the results as uninterpreted functions of the arguments and, when the
+// callee reads memory, of the current heap.
+func (e *enc) pureCallTerms(st *State, c *ssa.CallCommon, fn *ssa.Function, args []ssa.Value) []string {
+	var name string
+	hs := newModSet()
+	all := args
+	if c.IsInvoke() {
+		it, _ := c.Value.Type().Underlying().(*types.Interface)
+		if it == nil || !isDatamonType(c.Value.Type()) {
+			return nil
+		}
+		impls := e.p.implementations(it, c.Method.Name())
+		if len(impls) == 0 {
+			return nil
+		}
+		for _, f := range impls {
+			if !e.p.isDet(f) {
+				return nil
+			}
+			hs.merge(e.p.mods[e.p.unwrapSynthetic(f)])
+		}
+		name = "pure_" + sanitize(ifaceKey(c.Value.Type(), c.Method.Name()))
+		all = append([]ssa.Value{c.Value}, args...)
+	} else {
+		if fn == nil || !e.p.isDatamon(fn) || !e.p.isDet(fn) {
+			return nil
+		}
+		name = "pure_" + sanitize(e.p.qname(fn))
+		hs.merge(e.p.mods[e.p.unwrapSynthetic(fn)])
+	}
+	return e.pureTerms(st, name, c.Signature(), all, hs.heapArgs())
+}
+
+func (e *enc) pureTerms(st *State, name string, sig *types.Signature, args []ssa.Value, heapArgs []string) []string {
+	var asorts, aterms []string
+	for _, a := range args {
+		ts := e.valN(a)
+		if len(ts) != 1 {
+			return nil
+		}
+		if strings.Contains(ts[0], "(alloc (- ") && len(heapArgs) > 0 {
+			return nil // the callee may read this activation's local memory
+		}
+		asorts = append(asorts, sortOf(a.Type()))
+		aterms = append(aterms, ts[0])
+	}
+	for _, s := range heapArgs {
+		asorts = append(asorts, "(Array Ref "+s+")")
+		aterms = append(aterms, e.heapNamed(st, s))
+	}
+	var out []string
+	for j := 0; j < sig.Results().Len(); j++ {
+		fnm := fmt.Sprintf("%s_%d", name, j)
+		rs := sortOf(sig.Results().At(j).Type())
+		if len(aterms) == 0 {
+			e.declare(fnm, rs)
+			out = append(out, fnm)
+			continue
+		}
+		e.declareFun(fnm, fmt.Sprintf("(%s) %s", strings.Join(asorts, " "), rs))
+		out = append(out, fmt.Sprintf("(%s %s)", fnm, strings.Join(aterms, " ")))
+	}
+	return out
+}
+
+// heapNamed returns a short name for the current heap term of a sort.
+func (e *enc) heapNamed(st *State, sort string) string {
+	t := e.heap(st, sort)
+	if len(t) > 60 {
+		n := e.fresh("Mem_"+sortKey(sort)+"_n", "(Array Ref "+sort+")")
+		e.assert(eq(n, t))
+		st.cells[heapCell(sort)] = n
+		return n
+	}
+	return t
+}
+
 func (e *enc) ghostCellFor(name string, v SVal) *ghostCell {
 	if gc, ok := e.ghostCells[name]; ok {
 		return gc
@@ -321,6 +418,9 @@ func (e *enc) ghostCellFor(name string, v SVal) *ghostCell {
 	e.cellSortOf[gc.cell] = v.sort
 	e.cellSortOf[gc.cell+"_set"] = "Bool"
 	e.ghostCells[name+"_set"] = &ghostCell{cell: gc.cell + "_set", sort: "Bool"}
+	// on paths where the call did not happen the flag is false
+	e.declare(gc.cell+"_set_0", "Bool")
+	e.assertOnce("(not " + gc.cell + "_set_0)")
 	return gc
 }
 
@@ -343,6 +443,19 @@ func (e *enc) bindDollar(env *Env, fn *ssa.Function, c *ssa.CallCommon, args []s
 				if nm := sg.Params().At(i).Name(); nm != "" {
 					env.bound["$"+nm] = SVal{t: e.val(args[i]), typ: args[i].Type(), sort: sortOf(args[i].Type())}
 				}
+			}
+		}
+	}
+	var ext *FuncContract
+	if c.IsInvoke() {
+		ext = e.p.externs[ifaceKey(c.Value.Type(), c.Method.Name())]
+	} else if fn != nil {
+		ext = e.p.externs[externKeyOf(fn)]
+	}
+	if ext != nil {
+		for i, pn := range ext.params {
+			if i < len(all) {
+				env.bound["$"+pn] = SVal{t: e.val(all[i]), typ: all[i].Type(), sort: sortOf(all[i].Type())}
 			}
 		}
 	}
@@ -495,7 +608,8 @@ func (e *enc) appendBuiltin(st *State, c *ssa.CallCommon) string {
 			if srcIsStr {
 				return fmt.Sprintf("(strat %s %s)", src, i)
 			}
-			return fmt.Sprintf("(select %s (elem (sarr %s) (+ (soff %s) %s)))", old, src, src, i)
+			// the source may be a slice of a protected local array (varargs): read the right memory
+			return fmt.Sprintf("(select %s (elem (sarr %s) (+ (soff %s) %s)))", e.heapAt(st, es, sliceArr(a1)), src, src, i)
 		}
 		// in place: only the k cells after the old length change
 		e.assert(fmt.Sprintf("(=> %s (forall ((r Ref)) (! (= (select %s r) (ite (and ((_ is elem) r) (= (ebase r) (sarr %s)) (<= (+ (soff %s) (slen %s)) (eidx r)) (< (eidx r) (+ (soff %s) %s))) %s (select %s r))) :pattern ((select %s r)))))",
@@ -532,7 +646,7 @@ func (e *enc) copyBuiltin(st *State, c *ssa.CallCommon) string {
 	if isHeapScalar(es) {
 		old := e.heap(st, es)
 		nw := e.fresh("Mem_"+sortKey(es)+"_cp", "(Array Ref "+es+")")
-		srcVal := fmt.Sprintf("(select %s (elem (sarr %s) (+ (soff %s) (- (eidx r) (soff %s)))))", old, src, src, dst)
+		srcVal := fmt.Sprintf("(select %s (elem (sarr %s) (+ (soff %s) (- (eidx r) (soff %s)))))", e.heapAt(st, es, sliceArr(src)), src, src, dst)
 		if srcIsStr {
 			srcVal = fmt.Sprintf("(strat %s (- (eidx r) (soff %s)))", src, dst)
 		}
@@ -547,13 +661,50 @@ func (e *enc) copyBuiltin(st *State, c *ssa.CallCommon) string {
 	return n
 }
 
-// havocStores: abstract store theory hook (stage 2).
-func (e *enc) havocStores(st *State, tag string) {
-	for _, c := range sortedKeys(st.cells) {
-		if strings.HasPrefix(c, "Store_") {
-			st.cells[c] = e.fresh(c+"_"+tag, e.cellSortOf[c])
+// sliceArr extracts the backing-array term of a syntactic (mkslice arr off len cap) term.
+func sliceArr(t string) string {
+	if !strings.HasPrefix(t, "(mkslice ") {
+		return ""
+	}
+	rest := t[len("(mkslice "):]
+	if !strings.HasPrefix(rest, "(") {
+		if i := strings.IndexByte(rest, ' '); i > 0 {
+			return rest[:i]
+		}
+		return ""
+	}
+	d := 0
+	for i, c := range rest {
+		switch c {
+		case '(':
+			d++
+		case ')':
+			d--
+			if d == 0 {
+				return rest[:i+1]
+			}
 		}
 	}
+	return ""
+}
+
+// havocStores: abstract store theory hook (stage 2).
+func (e *enc) havocStores(st *State, tag string) {
+	for _, k := range []string{"exists", "updated", "content", "size"} {
+		c, _ := e.storeCell(k)
+		st.cells[c] = e.fresh(c+"_"+tag, e.cellSortOf[c])
+	}
+}
+
+// storeCell: ghost state of abstract object stores, indexed by store value and key.
+func (e *enc) storeCell(kind string) (cell, valSort string) {
+	valSort = "Int"
+	if kind == "exists" {
+		valSort = "Bool"
+	}
+	cell = "Store_" + kind
+	e.cellSortOf[cell] = fmt.Sprintf("(Array Iface (Array Str %s))", valSort)
+	return
 }
 
 var _ = sort.Strings
